@@ -216,10 +216,11 @@ Proof.
 Qed.
 
 (* ---------- file ids ---------- *)
-Lemma strip_zeros_app : forall K C, strip_zeros (length K) (K ++ C) = strip_zeros (length K) K ++ C.
+Lemma strip_zeros_app : forall k K C, (k <= length K)%nat -> strip_zeros k (K ++ C) = strip_zeros k K ++ C.
 Proof.
-  induction K as [|x K IH]; intros C; [reflexivity|].
-  cbn [length app strip_zeros]. destruct x; [apply IH|reflexivity].
+  induction k as [|k IH]; intros K C H; [reflexivity|].
+  destruct K as [|x K]; [cbn [length] in H; lia|].
+  cbn [length] in H. cbn [app strip_zeros]. destruct x; [apply IH; lia|reflexivity].
 Qed.
 
 Lemma strip_zeros_decode : forall k l, be_decode (strip_zeros k l) = be_decode l.
@@ -243,29 +244,42 @@ Proof.
   cbn [strip_zeros]. rewrite len_cons. specialize (IH l). lia.
 Qed.
 
+(* at most k leading bytes are dropped *)
+Lemma strip_zeros_len_ge : forall k l, len l <= len (strip_zeros k l) + N.of_nat k.
+Proof.
+  induction k as [|k IH]; intros l; [cbn [strip_zeros]; lia|].
+  destruct l as [|x l]; [cbn [strip_zeros]; rewrite len_nil; lia|]. destruct x; [|cbn [strip_zeros]; lia].
+  cbn [strip_zeros]. rewrite len_cons. specialize (IH l). lia.
+Qed.
+
 Lemma format_key_cookie_split : forall key cookie,
   format_key_cookie key cookie =
-  hex_of_bytes (strip_zeros 8 (be_encode 8 key)) ++ hex_of_bytes (be_encode 4 cookie).
+  hex_of_bytes (strip_zeros 7 (be_encode 8 key)) ++ hex_of_bytes (be_encode 4 cookie).
 Proof.
   intros. unfold format_key_cookie.
   assert (H8 : length (be_encode 8 key) = 8%nat).
   { pose proof (len_be_encode 8 key) as H. unfold len in H. lia. }
-  rewrite <- H8 at 1. rewrite strip_zeros_app, H8. apply hex_of_bytes_app.
+  rewrite strip_zeros_app by lia. apply hex_of_bytes_app.
 Qed.
 
-Lemma parse_key_cookie_format : forall key cookie, 1 <= key -> key < 2 ^ 64 -> cookie < 2 ^ 32 ->
+(* the repaired loop keeps at least one key byte, whatever the key (0 included) *)
+Lemma key_part_len : forall key, 1 <= len (strip_zeros 7 (be_encode 8 key)) <= 8.
+Proof.
+  intros key. pose proof (strip_zeros_len_ge 7 (be_encode 8 key)) as H1.
+  pose proof (strip_zeros_len 7 (be_encode 8 key)) as H2. rewrite len_be_encode in H1, H2.
+  change (N.of_nat 7) with 7 in H1. lia.
+Qed.
+
+Lemma parse_key_cookie_format : forall key cookie, key < 2 ^ 64 -> cookie < 2 ^ 32 ->
   parse_key_cookie (format_key_cookie key cookie) = Some (key, cookie).
 Proof.
-  intros key cookie H1 Hk Hc. rewrite format_key_cookie_split.
-  set (A := strip_zeros 8 (be_encode 8 key)).
+  intros key cookie Hk Hc. rewrite format_key_cookie_split.
+  pose proof (key_part_len key) as HAlen.
+  set (A := strip_zeros 7 (be_encode 8 key)) in *.
   assert (HA : be_decode A = key).
   { unfold A. rewrite strip_zeros_decode. apply be_decode_encode. assumption. }
   assert (HAok : bytes_ok A) by (apply strip_zeros_ok, be_encode_bytes_ok).
-  assert (HAne : A <> []) by (intro E; rewrite E in HA; cbn in HA; lia).
-  assert (HAlen : 1 <= len A <= 8).
-  { split.
-    - destruct A; [congruence|rewrite len_cons; lia].
-    - pose proof (strip_zeros_len 8 (be_encode 8 key)) as H. rewrite len_be_encode in H. exact H. }
+  assert (HAne : A <> []) by (intro E; rewrite E, len_nil in HAlen; lia).
   assert (HC : len (hex_of_bytes (be_encode 4 cookie)) = 8)
     by (rewrite len_hex_of_bytes, len_be_encode; reflexivity).
   unfold parse_key_cookie.
@@ -315,10 +329,10 @@ Proof.
   apply strip_zeros_ok. apply Forall_app. split; apply be_encode_bytes_ok.
 Qed.
 
-Lemma file_id_roundtrip : forall vid key cookie, vid < 2 ^ 32 -> 1 <= key -> key < 2 ^ 64 ->
+Lemma file_id_roundtrip : forall vid key cookie, vid < 2 ^ 32 -> key < 2 ^ 64 ->
   cookie < 2 ^ 32 -> parse_file_id (fid_string vid key cookie) = Some (vid, key, cookie).
 Proof.
-  intros vid key cookie Hv H1 Hk Hc. unfold parse_file_id, fid_string, vid_string.
+  intros vid key cookie Hv Hk Hc. unfold parse_file_id, fid_string, vid_string.
   cbn [app]. rewrite index_of_app by (apply itoa_not_in; reflexivity).
   destruct (itoa_spec vid) as [Hne _].
   assert (Hl : len (itoa vid) <> 0) by (intro E; apply Hne, len_zero_nil, E).
@@ -331,31 +345,28 @@ Proof.
   rewrite parse_key_cookie_format by assumption. reflexivity.
 Qed.
 
-Lemma len_format_gt8 : forall key cookie, 1 <= key -> key < 2 ^ 64 -> 8 < len (format_key_cookie key cookie).
+Lemma len_format_gt8 : forall key cookie, 8 < len (format_key_cookie key cookie).
 Proof.
-  intros key cookie H1 Hk. rewrite format_key_cookie_split, len_app, !len_hex_of_bytes, len_be_encode.
-  set (A := strip_zeros 8 (be_encode 8 key)).
-  assert (HA : be_decode A = key).
-  { unfold A. rewrite strip_zeros_decode. apply be_decode_encode. assumption. }
-  destruct A; [cbn in HA; lia|]. rewrite len_cons. lia.
+  intros key cookie. rewrite format_key_cookie_split, len_app, !len_hex_of_bytes, len_be_encode.
+  pose proof (key_part_len key). lia.
 Qed.
 
-Lemma parse_path_plain : forall key cookie, 1 <= key -> key < 2 ^ 64 -> cookie < 2 ^ 32 ->
+Lemma parse_path_plain : forall key cookie, key < 2 ^ 64 -> cookie < 2 ^ 32 ->
   parse_path (format_key_cookie key cookie) = Some (key, cookie).
 Proof.
-  intros key cookie H1 Hk Hc. unfold parse_path.
-  pose proof (len_format_gt8 key cookie H1 Hk) as Hl.
+  intros key cookie Hk Hc. unfold parse_path.
+  pose proof (len_format_gt8 key cookie) as Hl.
   destruct (len (format_key_cookie key cookie) <=? 8) eqn:E; [lia|].
   rewrite last_index_not_in by (apply format_ok_chars; lia).
   rewrite parse_key_cookie_format by assumption. reflexivity.
 Qed.
 
-Lemma parse_path_delta : forall key cookie d, 1 <= key -> key < 2 ^ 64 -> cookie < 2 ^ 32 -> d < 2 ^ 64 ->
+Lemma parse_path_delta : forall key cookie d, key < 2 ^ 64 -> cookie < 2 ^ 32 -> d < 2 ^ 64 ->
   parse_path (format_key_cookie key cookie ++ [95] ++ itoa d) =
     Some ((key + d) mod 18446744073709551616, cookie).
 Proof.
-  intros key cookie d H1 Hk Hc Hd. unfold parse_path.
-  pose proof (len_format_gt8 key cookie H1 Hk) as Hl.
+  intros key cookie d Hk Hc Hd. unfold parse_path.
+  pose proof (len_format_gt8 key cookie) as Hl.
   destruct (len (format_key_cookie key cookie ++ [95] ++ itoa d) <=? 8) eqn:E.
   { rewrite len_app in E. lia. }
   cbn [app]. rewrite last_index_app by (apply itoa_not_in; reflexivity).
